@@ -343,6 +343,29 @@ def ob_inplace_update(kind):
     return Ob("C06.update.inplace[%s]" % kind, "U", body, clause="heights are those of the current parameters", funcs=FUNCS)
 
 
+def ob_reparam_history(kind, depth):
+    """every history (length <= depth) of {assign, in-place update + notification, read heights, read branch lengths, call} on the real
+    ReparameterizedTimeTreeModel: each checked read equals that of a fresh model at the current parameter value"""
+    def body():
+        bad, n, seen = treemodels.reparam_histories(kind, depth, check=("heights", "bl"))
+        if bad is not None:
+            hist, op, got, want = bad
+            raise Refuted("%s tree after the history %s: %s returns %s, a fresh model at the current parameter value returns %s" % (kind, list(hist), op, got, want),
+                          witness={"kind": kind, "history": list(hist)}, replay={"kind": "custom", "contract": "C06", "func": "replay_reparam_history", "args": {"kind": kind, "depth": depth}}, confirmed=True)
+        allst = [set().union(*seen[:d + 1]) for d in range(len(seen))]
+        sat = next((d for d in range(1, len(allst) - 1) if allst[d] == allst[-1]), None)
+        return {"backend": "heap", "cases": n, "statement": "%d histories; dirty-flag states reached: %d, saturated from depth %s (exhaustive modulo the flag abstraction if saturated)" % (n, len(allst[-1]), sat)}
+    return Ob("C06.reparam.history[%s,depth<=%d]" % (kind, depth), "B", body, clause="node heights and branch lengths are those of the CURRENT parameters after every history of updates and reads", funcs=FUNCS)
+
+
+def replay_reparam_history(args):
+    try:
+        ob_reparam_history(args["kind"], args["depth"]).fn()
+    except Refuted as e:
+        return False, e.detail
+    return True, "held"
+
+
 def replay_inplace(args):
     try:
         ob_inplace_update(args["kind"]).fn()
@@ -418,4 +441,5 @@ def obligations(tier, seed):
         obs.append(ob_frame_transformed(op))
     for kind in ("ratios", "shifts"):
         obs.append(ob_inplace_update(kind))
+        obs.append(ob_reparam_history(kind, 4 if tier == 'quick' else 5))
     return obs
